@@ -95,14 +95,20 @@ package redisemu
 //@ ensures [C14] keyspace: dbReady(ds)
 //@ ensures [C14,C13] released: !held
 
+// set by FLUSHDB's worker when it has run (the handler replies only after that)
+//@ ghost gFlushedDb bool
+//@ ghost gFlushedIndex int
 //@ func dataStoreSet.flushDb
 //@ prop C14
+//@ ghostentry gFlushedDb = true
+//@ ghostentry gFlushedIndex = index
+//@ ensures [C14] done: gFlushedDb && gFlushedIndex == index
 //@ guards on
 //@ requires dssOK(dss) && !held
 //@ requires wf: forall j int :: dbsWF(dss, j)
 //@ requires caller != nil ==> (dscOK(caller) && lockMode(caller))
 //@ requires free wf: dss.dbs[index] != nil ==> (dss.dbs[index].data != nil && dss.dbs[index].waitingClients != nil && dss.dbs[index].data.keyspace && dss.dbs[index].data.owner == dss.dbs[index] && !dss.dbs[index].data.scratch)
-//@ modifies dataStore.data dataStore.commandNumber redisDict.dirty redisDict.keyspace redisDict.owner redisDict.scratch alloc ghost.held
+//@ modifies dataStore.data dataStore.commandNumber redisDict.dirty redisDict.keyspace redisDict.owner redisDict.scratch alloc ghost.held ghost.gFlushedDb ghost.gFlushedIndex
 //@ ensures [C14] inplace: dss.dbs[index] == old(dss.dbs[index])
 //@ ensures [C14] empty: old(dss.dbs[index]) != nil ==> old(dss.dbs[index]).data.count == 0
 //@ ensures [C14] others: forall j int :: dss.dbs[j] == old(dss.dbs[j])
@@ -157,4 +163,20 @@ package redisemu
 //@ requires !gFlushedAll
 //@ modifies *
 //@ ensures [C14] flushed.before.reply: gFlushedAll
+//@ ensures [C14] reply: output.data == rstrOK
+
+// C14: FLUSHDB (with or without SYNC / ASYNC) empties the database its connection has selected - not another
+// index - in the handler's own goroutine, before the reply is built
+//@ func fnFlushDb
+//@ prop C14
+//@ safetyprop none
+//@ mode int
+//@ requires ctx != nil && ctx.cs != nil && ctx.dsc != nil && dssOK(ctx.cs.dss) && !held
+//@ requires wf: forall j int :: dbsWF(ctx.cs.dss, j)
+//@ requires dscOK(ctx.dsc) && lockMode(ctx.dsc)
+//@ requires free wf: forall j int :: ctx.cs.dss.dbs[j] != nil ==> dbReady(ctx.cs.dss.dbs[j])
+//@ requires !gFlushedDb
+//@ modifies *
+//@ ensures [C14] flushed.before.reply: gFlushedDb
+//@ ensures [C14] own.database: gFlushedIndex == old(ctx.cs.selectedDb)
 //@ ensures [C14] reply: output.data == rstrOK
